@@ -1,6 +1,6 @@
 (* T2(c) per program: (t2plain PROGRAM REALFLAT|none)
    -> "outside"  (the program is not a single CrossBlock of plain factors with the supported constraints)
-    | "create=ok|ERR flat=same|diff:FIELDS|na fails=same|diff|na doc=ok|unsupported|crash sem=same|diff:PARTS|na"
+    | "guard=true|false create=ok|ERR flat=same|diff:FIELDS|na fails=same|diff|na doc=ok|unsupported|crash sem=same|diff:PARTS|na"
    flat: create_flat (plain_input p) against the flat record of the real block (all fields but fl_errors_fail);
    sem:  code_sem of the created flat against ds_sem (doc_sem p): equal trial count, factor table, constraint
          list, crossings with equal factors / first / chunk and the same *set* of (combination, multiplicity)
@@ -44,9 +44,10 @@ let () =
      | Some ci ->
        let created = CreateFlat.create_flat ci in
        let doc = DocSem.doc_sem p in
+       let gd = "guard=" ^ show_bool (PlainT2Final.t2_guard p) ^ " " in
        let docs = (match doc with DocSem.Ok _ -> "ok" | DocSem.Unsup _ -> "unsupported" | DocSem.Crash _ -> "crash") in
        (match created with
-        | CreateFlat.FErr e -> "create=" ^ show_ferr e ^ " flat=na fails=na doc=" ^ docs ^ " sem=na"
+        | CreateFlat.FErr e -> gd ^ "create=" ^ show_ferr e ^ " flat=na fails=na doc=" ^ docs ^ " sem=na"
         | CreateFlat.FOk fb ->
           let flats, fails = (match real with
               | A "none" -> "na", "na"
@@ -57,5 +58,5 @@ let () =
               | DocSem.Ok ds -> (match sem_diff (CodeSem.code_sem fb) ds.DocSem.ds_sem with
                   | [] -> "same" | l -> "diff:" ^ Stdlib.String.concat "," l)
               | _ -> "na") in
-          "create=ok flat=" ^ flats ^ " fails=" ^ fails ^ " doc=" ^ docs ^ " sem=" ^ sems))
+          gd ^ "create=ok flat=" ^ flats ^ " fails=" ^ fails ^ " doc=" ^ docs ^ " sem=" ^ sems))
     | _ -> "!args")
